@@ -199,6 +199,69 @@ def jaccard(a, b):
     return inter / union if union else 1.0
 
 
+ITEM_TABLE = os.path.join(os.path.dirname(os.path.abspath(__file__)), 'tables', 'item_paths.json')
+
+
+def item_paths(j):
+    """the in-crate type and trait paths of a tree: {'adts': {path: [field names]}, 'traits': [paths]}"""
+    adts = {a['path']: sorted(fl['name'] for v in a['variants'] for fl in v['fields']) + sorted(v['name'] for v in a['variants']) for a in j['adts']}
+    roots = {a.split('::', 1)[0] for a in adts} | {f['id'].split('::', 1)[0] for f in j['fns'] if not f['id'].startswith('<')}
+    traits = set()
+    for im in j['impls']:
+        t = im.get('trait')
+        if t and t.split('::', 1)[0] in roots:
+            traits.add(t)
+    for f in j['fns']:
+        t = f.get('in_trait')
+        if isinstance(t, str) and t.split('::', 1)[0] in roots:
+            traits.add(t)
+    return {'adts': adts, 'traits': sorted(traits)}
+
+
+def canonicalise_paths(j):
+    """a type or trait that moved to another module (same name, same fields / variants) is presented under the path the rules
+    know: every occurrence of the new path in the facts is replaced by the pinned one.  Returns (facts, {new: old})."""
+    if not os.path.exists(ITEM_TABLE):
+        return j, {}
+    import re
+    table = json.load(open(ITEM_TABLE))
+    cur = item_paths(j)
+    sub = {}
+    for old, shape in table['adts'].items():
+        if old in cur['adts']:
+            continue
+        name = old.rsplit('::', 1)[-1]
+        cands = [n for n, sh in cur['adts'].items() if n not in table['adts'] and n.rsplit('::', 1)[-1] == name and sh == shape]
+        if len(cands) == 1:
+            sub[cands[0]] = old
+    for old in table['traits']:
+        if old in cur['traits']:
+            continue
+        name = old.rsplit('::', 1)[-1]
+        cands = [n for n in cur['traits'] if n not in table['traits'] and n.rsplit('::', 1)[-1] == name]
+        if len(cands) == 1:
+            sub[cands[0]] = old
+    if not sub:
+        return j, {}
+    text = json.dumps(j)
+    for new, old in sorted(sub.items(), key=lambda kv: -len(kv[0])):
+        text = re.sub(r'(?<![A-Za-z0-9_:])' + re.escape(new) + r'(?![A-Za-z0-9_])', old.replace('\\', '\\\\'), text)
+    return json.loads(text), sub
+
+
+def restore_files(j, table):
+    """a function the rules know that now lives in another file (an impl block or a module moved) keeps, for the rules, the
+    file it was pinned in; reports show the real one (`file_actual`)"""
+    n = 0
+    for f in j['fns']:
+        pinned = table.get(f.get('root', f['id'])) or table.get(f['id'])
+        if pinned and pinned.get('file') and f.get('file') and pinned['file'] != f['file'] and 'file_actual' not in f:
+            f['file_actual'] = f['file']
+            f['file'] = pinned['file']
+            n += 1
+    return n
+
+
 def rebind_functions(j):
     """returns {new_id: old_id} and rewrites ids in the facts JSON in place"""
     if not os.path.exists(SIG_TABLE):
@@ -207,6 +270,7 @@ def rebind_functions(j):
     cur = signatures(j)
     missing = [m for m in table if m not in cur]
     if not missing:
+        restore_files(j, table)
         return {}
     fresh = [n for n in cur if n not in table]
     binding = {}
@@ -226,9 +290,15 @@ def rebind_functions(j):
                 s += 0.1     # same name, another module
             scored.append((s, n))
         scored.sort(reverse=True)
+        # the same name under another path (an impl block or a function moved to another module) decides by itself
+        named = [(sc, n) for (sc, n) in scored if n.rsplit('::', 1)[-1] == m.rsplit('::', 1)[-1] and sc >= 0.4]
+        if len(named) == 1 and named[0][1] not in binding:
+            binding[named[0][1]] = m
+            continue
         if scored and scored[0][0] >= 0.6 and (len(scored) == 1 or scored[0][0] - scored[1][0] >= 0.15) and scored[0][1] not in binding:
             binding[scored[0][1]] = m
     if not binding:
+        restore_files(j, table)
         return {}
 
     def ren(s):
@@ -270,4 +340,5 @@ def rebind_functions(j):
     for im in j['impls']:
         for it in im['items']:
             it['def'] = ren(it['def'])
+    restore_files(j, table)
     return binding
